@@ -744,10 +744,10 @@ var c08Mutants = []Mutant{
 	{Name: "tag-saved-only-for-named-refs", File: "content/oci/oci.go",
 		Old:    "\tif s.AutoSaveIndex {\n\t\treturn s.saveIndex()\n\t}\n\treturn nil\n}\n\n// Resolve",
 		New:    "\tif s.AutoSaveIndex && reference != dgst {\n\t\treturn s.saveIndex()\n\t}\n\treturn nil\n}\n\n// Resolve",
-		Expect: "C08.R2.persist-tag-mutations|(*~/content/oci.Store).tag"},
+		Expect: "C08.R2.persist-tag-mutations|(*~/content/oci.Store).Push|(*~/content/oci.Store).tag"}, // the helper now delegates: reported at its exported callers
 	{Name: "delete-forgets-untagged-flag", File: "content/oci/oci.go",
 		Old: "\t\t\ts.tagResolver.Untag(reference)\n\t\t\tuntagged = true\n", New: "\t\t\ts.tagResolver.Untag(reference)\n",
-		Expect: "C08.R2.persist-tag-mutations|(*~/content/oci.Store).delete"},
+		Expect: "C08.R2.persist-tag-mutations|(*~/content/oci.Store).Delete|(*~/content/oci.Store).delete"},
 	{Name: "delete-save-error-swallowed", File: "content/oci/oci.go",
 		Old:    "\t\terr := s.saveIndex()\n\t\tif err != nil {\n\t\t\treturn nil, err\n\t\t}\n",
 		New:    "\t\tif err := s.saveIndex(); err != nil && !s.AutoGC {\n\t\t\treturn nil, err\n\t\t}\n",
@@ -775,6 +775,6 @@ var c08Mutants = []Mutant{
 	// R4
 	{Name: "exists-uses-own-path", File: "content/oci/readonlystorage.go",
 		Old:    "\t_, err = fs.Stat(s.fsys, path)\n\tif err != nil {\n\t\tif errors.Is(err, fs.ErrNotExist) {\n\t\t\treturn false, nil",
-		New:    "\t_, err = fs.Stat(s.fsys, \"blobs/\"+target.Digest.Algorithm().String()+\"/\"+target.Digest.Hex())\n\tif err != nil {\n\t\tif errors.Is(err, fs.ErrNotExist) {\n\t\t\treturn false, nil",
+		New:    "\t_ = path\n\t_, err = fs.Stat(s.fsys, \"blobs/\"+target.Digest.Algorithm().String()+\"/\"+target.Digest.Hex())\n\tif err != nil {\n\t\tif errors.Is(err, fs.ErrNotExist) {\n\t\t\treturn false, nil",
 		Expect: "C08.R4.path-agreement|(*~/content/oci.ReadOnlyStorage).Exists"},
 }
